@@ -331,6 +331,16 @@ func (c *oCache) TryRemove(id string) (ok bool, err error) {
 		return false, ErrNotExists
 	}
 
+	select {
+	case <-e.load:
+	default:
+		// the load is still in flight: there is no value to try-close yet.
+		// An entry found in the map with a finished load always has its value
+		// set, because a failed load deletes the entry under c.mu before the
+		// load channel is closed.
+		c.mu.Unlock()
+		return false, nil
+	}
 	verifGateE("tryremove.found", e)
 	c.mu.Unlock()
 
